@@ -391,6 +391,8 @@ def write_evidence(prop, tier, seed, level, coverage, wall, assumptions, violati
     # VERIF_EVIDENCE_DIR: development aid (bin/selftest, bin/seedcheck run the checks against mutated trees
     # and must not overwrite the evidence of the unchanged tree)
     edir = os.environ.get("VERIF_EVIDENCE_DIR") or os.path.join(ROOT, "evidence")
+    if prop.startswith("X") and not os.environ.get("VERIF_EVIDENCE_DIR"):
+        edir = os.path.join(edir, "extra")      # specs beyond the listed properties (DESIGN section 10)
     os.makedirs(edir, exist_ok=True)
     ev = {"property_id": prop, "tier": tier, "seed": int(seed), "level": level, "coverage": coverage,
           "assumptions": assumptions, "wall_s": round(wall, 1), "violations": violations}
